@@ -1305,7 +1305,9 @@ func selectLiteralStrategy(literals *literal.Seq, litAnalysis literalAnalysis) S
 	// Patterns with >32 literals exceed Teddy's capacity but Aho-Corasick handles
 	// thousands of patterns with O(n) matching time.
 	// Speedup: 50-500x by using dense array transitions (~1.6 GB/s throughput).
-	if litAnalysis.hasAhoCorasickLiterals && literals.AllComplete() {
+	// The automaton reports literal occurrences only: any assertion (\b, \B, ^, $)
+	// around the alternation still needs a regex engine.
+	if litAnalysis.hasAhoCorasickLiterals && literals.AllComplete() && !litAnalysis.hasAnchors {
 		return UseAhoCorasick
 	}
 
